@@ -16,10 +16,13 @@ Section Main.
   Hypothesis hash_faithful : forall c1 c2, hash c1 = hash c2 ->
                                            forall q t f, xform c1 q t f = xform c2 q t f.
   Hypothesis xform_frame : forall c q t f f',
+      fst (xform c q t f) <> None ->
       (forall d, In d (snd (xform c q t f)) -> fs_get f' d = fs_get f d) ->
       xform c q t f' = xform c q t f.
-  Hypothesis deps_exist : forall c q t f d, In d (snd (xform c q t f)) -> fs_get f d <> None.
-  Hypothesis deps_outside : forall c q t f d, In d (snd (xform c q t f)) -> starts_with outp d = false.
+  Hypothesis deps_exist : forall c q t f d,
+      fst (xform c q t f) <> None -> In d (snd (xform c q t f)) -> fs_get f d <> None.
+  Hypothesis deps_outside : forall c q t f d,
+      fst (xform c q t f) <> None -> In d (snd (xform c q t f)) -> starts_with outp d = false.
 
   Notation out_of := (out_of inp outp).
   Notation is_source := (is_source inp).
@@ -27,6 +30,7 @@ Section Main.
   Notation run := (run cfg hash xform inp outp).
   Notation fresh := (fresh cfg xform inp outp).
   Notation healthy := (healthy cfg xform inp).
+  Notation always_healthy := (always_healthy cfg xform inp).
   Notation reported_from := (reported_from cfg inp).
   Notation dirs_ok := (dirs_ok cfg hash xform inp outp).
   Notation track := (track cfg inp).
@@ -103,6 +107,7 @@ Section Main.
     - reflexivity.
     - exact E_initial.
     - reflexivity.
+    - intros i it Hi. unfold get_slot in Hi. destruct i; discriminate.
   Qed.
 
   (** * Every event preserves the invariant; nothing panics *)
@@ -110,7 +115,7 @@ Section Main.
   Lemma step_inv c0 d u w e :
     inv c0 d u w -> ev_ok E e ->
     call_ok cfg inp u e = true ->
-    (match e with Process => is_clean d = true | _ => True end) ->
+    (match e with Process => is_clean d = true /\ healthy (w_cfg w) u = true | _ => True end) ->
     dir_event_ok cfg (w_tree w) e = true ->
     exists w' c0', step w e = Running w' /\ inv c0' (track u d e) (user_step u e) w' /\
                    (match e with
@@ -149,7 +154,8 @@ Section Main.
         by (eapply step_AddSrc; eassumption).
       destruct X as [t' [R I']].
       rewrite R. eexists. exists c0. split; [reflexivity|]. split; [exact I'|split; [exact I|reflexivity]].
-    - assert (X : exists t' f',
+    - destruct Hproc as [Hproc Hhl].
+      assert (X : exists t' f',
                  process cfg hash xform (w_cfg w) (w_tree w) (w_fs w) = Some (t', f') /\
                  inv (w_cfg w) d u (mkWorld f' (w_cfg w) t') /\ rmf t' = [] /\
                  (forall j it, get_slot (slots t') j = Some it -> is_done (i_st it) = true))
@@ -162,20 +168,22 @@ Section Main.
   Lemma run_inv : forall h c0 d u w,
     inv c0 d u w -> Forall (ev_ok E) h ->
     reported_from u d h = true -> dirs_ok w h = true ->
+    always_healthy u (w_cfg w) h = true ->
     exists w' c0', run w h = Running w' /\ inv c0' (dirt_after u d h) (user_fs u h) w' /\
                    w_cfg w' = final_cfg cfg (w_cfg w) h.
   Proof.
-    induction h as [|e h IH]; intros c0 d u w Hinv Hev Hrep Hdir.
+    induction h as [|e h IH]; intros c0 d u w Hinv Hev Hrep Hdir Hah.
     - exists w, c0. cbn. auto.
     - inversion Hev as [|? ? He Hev']; subst.
+      cbn [Worker.always_healthy] in Hah. apply andb_true_iff in Hah as [Hah1 Hah2].
       cbn [Worker.reported_from] in Hrep. apply andb_true_iff in Hrep as [Hrep Hrep'].
       apply andb_true_iff in Hrep as [Hcall Hproc].
       cbn [Worker.dirs_ok] in Hdir. apply andb_true_iff in Hdir as [Hd1 Hd2].
       destruct (step_inv c0 d u w e Hinv He Hcall) as [w1 [c1 [Hs [I1 [_ Hc]]]]].
       { destruct e; auto. }
       { exact Hd1. }
-      rewrite Hs in Hd2.
-      destruct (IH c1 _ _ w1 I1 Hev' Hrep' Hd2) as [w' [c' [Hr [I' Hc']]]].
+      rewrite Hs in Hd2. rewrite <- Hc in Hah2.
+      destruct (IH c1 _ _ w1 I1 Hev' Hrep' Hd2 Hah2) as [w' [c' [Hr [I' Hc']]]].
       exists w', c'. cbn [Worker.run dirt_after]. rewrite Hs. split; [exact Hr|]. split; [exact I'|].
       rewrite Hc', Hc. unfold final_cfg. cbn [fold_left]. destruct e; reflexivity.
   Qed.
@@ -274,21 +282,37 @@ Section Main.
 
   (** * The theorem *)
 
+  Lemma always_healthy_app h1 h2 u c :
+    always_healthy u c (h1 ++ h2) = true ->
+    always_healthy u c h1 = true /\
+    always_healthy (user_fs u h1) (final_cfg cfg c h1) h2 = true.
+  Proof.
+    revert u c; induction h1 as [|e h1 IH]; intros u c H; cbn [app Worker.always_healthy] in *.
+    - auto.
+    - apply andb_true_iff in H as [H1 H2]. apply IH in H2 as [H2 H3]. rewrite H1, H2. split; [reflexivity|].
+      unfold final_cfg, user_fs in *. cbn [fold_left]. exact H3.
+  Qed.
+
   Theorem incremental_eq_fresh_E c_init h :
     Forall (ev_ok E) h ->
     reported cfg inp f0 (h ++ [Process]) = true ->
     dirs_ok (mkWorld f0 c_init empty_tree) h = true ->
-    healthy (final_cfg cfg c_init h) (user_fs f0 h) = true ->
+    always_healthy f0 c_init (h ++ [Process]) = true ->
     exists w, run (mkWorld f0 c_init empty_tree) (h ++ [Process]) = Running w /\
               forall p, fs_get (w_fs w) p = fs_get (fresh (final_cfg cfg c_init h) (user_fs f0 h)) p.
   Proof.
-    intros Hev Hrep Hdir Hhealthy. set (w0 := mkWorld f0 c_init empty_tree) in *.
+    intros Hev Hrep Hdir Hah. set (w0 := mkWorld f0 c_init empty_tree) in *.
     set (d0 := mkDirty [] (fs_collect f0 inp) []).
     unfold reported in Hrep. fold d0 in Hrep. apply reported_from_app in Hrep as [Hrep1 Hrep2].
-    destruct (run_inv h c_init d0 f0 w0 (inv_initial c_init c_init) Hev Hrep1 Hdir) as [w1 [c1 [Hrun1 [I1 Hc1]]]].
+    apply always_healthy_app in Hah as [Hah1 Hah2].
+    cbn [Worker.always_healthy] in Hah2. rewrite andb_true_r in Hah2. rename Hah2 into Hhealthy.
+    destruct (run_inv h c_init d0 f0 w0 (inv_initial c_init c_init) Hev Hrep1 Hdir Hah1) as [w1 [c1 [Hrun1 [I1 Hc1]]]].
     set (u := user_fs f0 h) in *. set (d1 := dirt_after f0 d0 h) in *.
     cbn [Worker.reported_from call_ok andb] in Hrep2. rewrite andb_true_r in Hrep2.
-    destruct (step_inv c1 d1 u w1 Process I1 Logic.I eq_refl Hrep2 eq_refl) as [w2 [c2 [Hs2 [I2 [[Hrm [Hc2 Hdone]] Hcfg2]]]]].
+    cbn [w_cfg] in Hc1. fold w0 in Hc1.
+    assert (Hhl1 : healthy (w_cfg w1) u = true) by (rewrite Hc1; exact Hhealthy).
+    destruct (step_inv c1 d1 u w1 Process I1 Logic.I eq_refl (conj Hrep2 Hhl1) eq_refl)
+      as [w2 [c2 [Hs2 [I2 [[Hrm [Hc2 Hdone]] Hcfg2]]]]].
     cbn [user_step Worker.user_step Worker.track] in I2.
     exists w2. split.
     { rewrite (run_app h [Process] w0 w1 Hrun1). cbn [Worker.run]. rewrite Hs2. reflexivity. }
@@ -305,20 +329,17 @@ Section Main.
                                                fst (xform c2 (i_src it) txt u) = Some o /\
                                                fs_get (w_fs w2) (i_out it) = Some o).
     { intros i it Hi. pose proof (inv_good _ _ _ _ _ _ _ _ _ _ _ I2 i it Hi (Hdone i it Hi) (Hclean it)) as G.
-      destruct G as [txt [Hsrc [Hdeps Hres]]].
+      destruct G as [txt [o [Hsrc [Hok [Hdeps [Hst Hres]]]]]].
       destruct (wf_item _ _ _ _ W2 i it Hi) as [Hout [Hs _]].
       assert (Hso : starts_with outp (i_src it) = false) by (eapply source_not_out; eassumption).
       assert (Hu : fs_get u (i_src it) = Some txt) by (rewrite <- (inv_user _ _ _ _ _ _ _ _ _ _ _ I2); assumption).
       assert (Hx : xform c2 (i_src it) txt u = xform c2 (i_src it) txt (w_fs w2)).
-      { apply xform_frame. intros x Hx. symmetry. apply (inv_user _ _ _ _ _ _ _ _ _ _ _ I2).
-        eapply deps_outside; exact Hx. }
+      { apply xform_frame; [congruence|]. intros x Hx. symmetry. apply (inv_user _ _ _ _ _ _ _ _ _ _ _ I2).
+        eapply deps_outside; [|exact Hx]. congruence. }
       assert (Hin : In (i_src it) (fs_collect u inp)).
       { apply fs_collect_spec. unfold Worker.is_source in Hs. apply andb_true_iff in Hs as [H1 H2].
         split; [congruence|auto]. }
-      unfold Worker.healthy in Hhealthy. rewrite forallb_forall in Hhealthy.
-      specialize (Hhealthy _ Hin). rewrite Hu in Hhealthy.
-      destruct (fst (xform c2 (i_src it) txt u)) as [o|] eqn:Ex; [|discriminate].
-      exists txt, o. rewrite <- Hx, Ex in Hres. destruct Hres as [_ Hres]. auto. }
+      exists txt, o. rewrite Hx. auto. }
     intros p. destruct (starts_with outp p) eqn:Epo.
     - destruct (classic_item_out (slots (w_tree w2)) p) as [[i [it [Hi Ho]]]|Hno].
       + destruct (Hitem i it Hi) as [txt [o [Hu [Hin [Hx Hf]]]]].
@@ -347,10 +368,11 @@ Section Main.
     Forall (ev_ok E) h ->
     reported cfg inp f0 h = true ->
     dirs_ok (mkWorld f0 c_init empty_tree) h = true ->
+    always_healthy f0 c_init h = true ->
     exists w, run (mkWorld f0 c_init empty_tree) h = Running w.
   Proof.
-    intros Hev Hrep Hdir.
-    destruct (run_inv h c_init _ f0 _ (inv_initial c_init c_init) Hev Hrep Hdir) as [w1 [c1 [Hrun1 _]]].
+    intros Hev Hrep Hdir Hah.
+    destruct (run_inv h c_init _ f0 _ (inv_initial c_init c_init) Hev Hrep Hdir Hah) as [w1 [c1 [Hrun1 _]]].
     eauto.
   Qed.
 End Main.
